@@ -71,12 +71,15 @@ package golang
 //@   loop[0] invariant errs == nil && __i0 > 0 ==> old(fsKind)[pkgFile(g, "parser.go")] == 0 && fsKind[pkgFile(g, "parser.go")] == 2
 //@   ensures @untouched untouched()
 //@   ensures @created result == nil ==> fsKind[pkgFile(g, "parser.go")] == 2 && old(fsKind)[pkgFile(g, "parser.go")] == 0
+// C06: an unresolved LALR(1) conflict is returned as an error, never swallowed, and no parser is written.
+//@   ensures @conflict lalrConflict(g.Params.Spec.Grammar, g.Params.Spec.Precedences) ==> result != nil && fsKind == old(fsKind) && fsData == old(fsData)
 
 //@ func Generate(u ui.UI, params *Params) error
 //@   requires u != nil && params != nil && params.Spec != nil
 //@   modifies fsKind, fsData, params.Path
 //@   ensures @untouched untouched()
 //@   ensures @badname !isIDValid(old(params.Spec.Name)) ==> result != nil && fsKind == old(fsKind) && fsData == old(fsData)
+//@   ensures @conflict lalrConflict(old(params.Spec.Grammar), old(params.Spec.Precedences)) ==> result != nil
 //@   ensures @complete result == nil ==> exists dir string :: dir == filepath.Join(filepath.Clean(old(params.Path)), old(params.Spec.Name))
 //@     && old(fsKind)[dir] == 0 && fsKind[dir] == 1
 //@     && fsKind[filepath.Join(filepath.Clean(old(params.Path)), old(params.Spec.Name), "errors.go")] == 2
